@@ -139,6 +139,8 @@ func c02StructCase(res *core.Result, rng *rand.Rand, t reflect.Type, v reflect.V
 				env.Unscoped[sf.Name] = r
 			}
 		}
+		shareTail(rng, env.Unscoped, fmt.Sprintf("sh_o%d", idx))
+		rm = toRM(env.Unscoped)
 		call = func() error { return valid.StructForFn(in, rm, "valid") }
 	case 5:
 		entry = "top-slice"
@@ -263,6 +265,8 @@ func c02FlatCase(res *core.Result, rng *rand.Rand, idx int) {
 			return
 		}
 		var in interface{} = m.Interface()
+		shareTail(rng, rules, "sh_m")
+		rm = toRM(rules)
 		env.Begin()
 		if rng.Intn(3) == 0 {
 			// a slice of 1-3 maps under the same rules: every element is judged on its own (its own
@@ -336,6 +340,8 @@ func c02FlatCase(res *core.Result, rng *rand.Rand, idx int) {
 			return
 		}
 		u := "http://h.example/p?" + strings.Join(q, "&")
+		shareTail(rng, rules, "sh_u")
+		rm = toRM(rules)
 		env.Begin()
 		env.ExpectFlat(entries, rules, func(k string) string { return k }, "", false, nil)
 		exps := env.Finish()
